@@ -859,6 +859,15 @@ class InterpStmts:
                         else:
                             s2list = [s2]
                         for s2 in s2list:
+                            # staged assertions at the end of an iteration (proved first, then available as facts for the
+                            # invariant re-establishment): they only add consequences; at_iter() refers to the start of THIS iteration
+                            for hi, hint in enumerate(lc.get("step_hints") or []):
+                                sh = s2.copy()
+                                sh.entry2 = st.entry
+                                sh.entry = st
+                                g = self.eval_spec(hint, sh, {"done": done_next, **self.loop_ghost(spec)})
+                                self.emit(s2, "assert", "%s.step_hint[%d]" % (label, hi), g)
+                                s2 = s2.assume(g)
                             s2c = s2.copy()
                             s2c.entry2 = st.entry
                             s2c.entry = st
@@ -1151,7 +1160,30 @@ class InterpStmts:
             return vals if vals else []
         spec, x, s2, dom, guard = self.comp_symbolic(e, st)
         if spec.mode != "seq":
-            raise Unsupported("list comprehension over an unordered collection")
+            # [x for x in <set-like> if cond]: a duplicate-free enumeration, in arbitrary order, of the elements passing the
+            # filter (only when the element expression is the iteration variable itself, so that no duplicates can arise)
+            sset = self.comp_set(ast.SetComp(elt=e.elt, generators=e.generators), st)
+            ek = sset.kind.args[0]
+            probe, = self.under_binder([x], lambda: [to_key(ek, self.coerce(self.tup_to_sv(self.eval1(e.elt, s2)[0]), ek, what="comprehension").tree)])
+            if not probe.eq(x):
+                raise Unsupported("list comprehension over an unordered collection with a computed element")
+            k = LIST(ek)
+            res = tfresh(k, "listu")
+            n = res[0]
+            ks = keysort(ek)
+            y = z3.Const(core.fresh_name("y"), ks)
+            i = z3.Int(core.fresh_name("i"))
+            pos = z3.Function(core.fresh_name("pos"), ks, core.I)
+            elt_key = lambda idx: to_key(ek, tselect(res[1], idx))
+            self.define([n >= 0, n == self.card(sset.tree),
+                         z3.ForAll([y], z3.Implies(z3.Select(sset.tree, y), z3.And(0 <= pos(y), pos(y) < n, elt_key(pos(y)) == y))),
+                         z3.ForAll([i], z3.Implies(z3.And(0 <= i, i < n), z3.And(z3.Select(sset.tree, elt_key(i)), pos(elt_key(i)) == i)))])
+            if getattr(self, "_binder_depth", 0) == 0:
+                cache = self.__dict__.setdefault("_list_sets", {})
+                k_new = tuple(l.get_id() for l in core.tleaves(res))
+                cache[k_new] = SV(SET(ek), sset.tree)
+                cache[("keep", k_new)] = res
+            return SV(k, res)
         box_ = {}
 
         def ev():
